@@ -70,3 +70,12 @@ cls_harness!(c19_cls_oo_w, true, 3);
 cls_harness!(c19_cls_oo_b, false, 3);
 cls_harness!(c19_cls_ooo_w, true, 4);
 cls_harness!(c19_cls_ooo_b, false, 4);
+
+// vacuity witness
+#[kani::proof]
+#[kani::unwind(8)]
+#[kani::stub(common::bitboard::square::square_string_to_bitboard, stub_sq)]
+fn witness_c19_cls_std_w() {
+    c19_cls(true, 0);
+    assert!(false, "vacuity witness");
+}
